@@ -52,7 +52,7 @@ class NativeDir:
         return os.path.join(self.root, name)
 
     def name_of(self, path):
-        return os.path.basename(path)
+        return os.path.basename(os.path.normpath(path))
 
     def write(self, name, data):
         with open(self.path(name), "wb") as f:
@@ -101,7 +101,7 @@ class MemDir:
         return "/" + name
 
     def name_of(self, path):
-        return path.rsplit("/", 1)[-1]
+        return [x for x in path.split("/") if x not in ("", ".")][-1]
 
     def write(self, name, data):
         self.fs.writebytes("/" + name, data)
@@ -132,6 +132,13 @@ class MemDir:
 
     def close(self):
         self.fs.close()
+
+
+def tempish_names(inp, out):
+    names = []
+    for base in [inp] + ([out] if out else []):
+        names += [base + ".tmp", base + "~", base + ".new", base + ".bak", "." + base + ".swp", base + ".part"]
+    return names
 
 
 def make_dir(kind):
